@@ -63,8 +63,17 @@ def universe_of(model):
 
 
 def evaluate(proto, feeds):
-    sess = onnx.reference.ReferenceEvaluator(proto)
-    return sess.run(None, feeds)
+    """onnx's reference evaluator; onnxruntime where the reference evaluator cannot run the model (function attribute defaults)."""
+    try:
+        sess = onnx.reference.ReferenceEvaluator(proto)
+        return sess.run(None, feeds)
+    except Exception:  # noqa: BLE001
+        import onnxruntime as ort
+        so = ort.SessionOptions()
+        so.graph_optimization_level = ort.GraphOptimizationLevel.ORT_DISABLE_ALL
+        so.log_severity_level = 4
+        s = ort.InferenceSession(proto.SerializeToString(), so, providers=["CPUExecutionProvider"])
+        return s.run(None, feeds)
 
 
 def main():
